@@ -44,6 +44,12 @@ func (r *Rand) Intn(n int) int {
 func (r *Rand) Bool() bool            { return r.U64()&1 == 1 }
 func (r *Rand) Chance(p int) bool     { return r.Intn(100) < p }
 func (r *Rand) Fork(tag uint64) *Rand { return NewRand(r.U64() ^ (tag * 0xD6E8FEB86659FD93)) }
+
+// Side derives an independent stream WITHOUT advancing r (adding a side stream to a workload leaves
+// the workload's own draws unchanged).
+func (r *Rand) Side(tag uint64) *Rand {
+	return NewRand(r.s ^ (tag * 0xD6E8FEB86659FD93) ^ 0xA5A5A5A55A5A5A5A)
+}
 func (r *Rand) Bytes(n int) []byte {
 	b := make([]byte, n)
 	for i := range b {
